@@ -120,7 +120,7 @@ impl encode::EncodeLtd for PublishAck {
         let prop_len = ack_props::encoded_size(
             &self.properties,
             &self.reason_string,
-            limit - HEADER_LEN - 4,
+            encode::reduce_limit(limit, HEADER_LEN as usize + 4),
         ); // limit - HEADER_LEN - len(packet_len.max())
         HEADER_LEN as usize + prop_len
     }
@@ -139,7 +139,7 @@ impl encode::EncodeLtd for PublishAck2 {
         let prop_len = ack_props::encoded_size(
             &self.properties,
             &self.reason_string,
-            limit - HEADER_LEN - 4,
+            encode::reduce_limit(limit, HEADER_LEN as usize + 4),
         ); // limit - HEADER_LEN - prop_len.max()
         HEADER_LEN as usize + prop_len
     }
